@@ -1,4 +1,8 @@
 # sourced by every script: offline Go environment (see DESIGN.md §11)
-export GOFLAGS=-mod=mod GOPROXY=off GOPRIVATE='*' GOTOOLCHAIN=auto GONOSUMDB='*' GONOSUMCHECK=1 GOFLAGS=-mod=mod
+export GOPROXY=off GOPRIVATE='*' GOTOOLCHAIN=auto GONOSUMDB='*'
+export GOFLAGS=-mod=mod
+# bin/mutate (overlay mode) sets VERIF_OVERLAY to a go build overlay file that
+# substitutes deliberately broken copies of /repo files without touching /repo.
+if [ -n "${VERIF_OVERLAY:-}" ]; then export GOFLAGS="$GOFLAGS -overlay=$VERIF_OVERLAY"; fi
 export VERIF_ROOT=/verif
 export PATH=$PATH:/usr/local/go/bin
